@@ -29,6 +29,8 @@ class Failure:
         p = (self.verdict or '').split()
         return p[1] if len(p) > 1 else ''
 
+HARNESS_ENV = {}       # extra environment of the harness process, from the check module (HARNESS_ENV)
+
 def run_harness(nixdrv, lines, workdir, sync=False, timeout=900, asan=False):
     """returns (returncode, stdout lines, stderr text)"""
     os.makedirs(workdir, exist_ok=True)
@@ -36,6 +38,7 @@ def run_harness(nixdrv, lines, workdir, sync=False, timeout=900, asan=False):
     with open(ops, 'w') as f:
         f.write('\n'.join(lines) + '\n')
     env = dict(os.environ)
+    env.update(HARNESS_ENV)
     if sync:
         env['NIXDRV_SYNC'] = '1'
     env['ASAN_OPTIONS'] = 'detect_leaks=0:abort_on_error=1'
@@ -253,6 +256,7 @@ def main(mod, argv):
     t0 = time.time()
     tier = a.tier if a.tier in ('quick', 'thorough') else 'quick'
     ctx = {'seed': a.seed, 'tier': tier, 'pid': pid, 'mod': mod}
+    HARNESS_ENV.update(getattr(mod, 'HARNESS_ENV', {}))
     if os.environ.get('VERIF_HARNESS_TIMEOUT'):      # for testing the out-of-time path
         ctx['harness_timeout'] = float(os.environ['VERIF_HARNESS_TIMEOUT'])
     if os.environ.get('VERIF_BATCH_LINES'):
